@@ -9,7 +9,7 @@ EXTENDS StreamSelect, Json
 
 CONSTANTS N, MaxSteps, Part, Parts, AnyNode, EmitCases, EmitMod,
           Pre,     \* BOOLEAN: also the xpaths with an attribute predicate in front of the last predicate
-          Family   \* "all": every document with N nodes; "nested": the 8-node shape  r{ x{ y{t} }, z{ w{ v{t} } } }  with every
+          Family   \* "mixed": r{ x{ t, y{t}, t } } with every naming and text;  "all": every document with N nodes; "nested": the 8-node shape  r{ x{ y{t} }, z{ w{ v{t} } } }  with every
                    \* naming - a candidate (x or y) that may be rejected, followed by a container z whose candidates lie deeper
 
 VARIABLES D, X
@@ -56,7 +56,15 @@ NestedDocs == { [n |-> 8, par |-> <<0, 1, 2, 3, 1, 5, 6, 7>>,
                 a1 \in (IF Part = 0 THEN {"", "1"} ELSE {""}), a2 \in (IF Part = 0 THEN {"", "1"} ELSE {""}) }
                 \* (Part # 0: the reduced variant of the quick tier - no attributes, second text fixed)
 
-Init == /\ D \in (IF Family = "nested" THEN NestedDocs ELSE {Doc(d) : d \in Docs})
+\* mixed content: r{ x{ t, y{t}, t } } - an element whose string value is spread over several text nodes, its own and its
+\* descendants', the last of them a text node
+MixedDocs == { [n |-> 6, par |-> <<0, 1, 2, 2, 4, 2>>,
+                 kind |-> <<"E", "E", "T", "E", "T", "T">>,
+                 nm |-> <<nms[1], nms[2], t1, nms[3], "1", t3>>,
+                 at |-> <<"", "", "", "", "", "">>] :
+               nms \in [1..3 -> {"a", "b"}], t1 \in {"1", "2"}, t3 \in {"1", "2"} }
+
+Init == /\ D \in (IF Family = "nested" THEN NestedDocs ELSE IF Family = "mixed" THEN MixedDocs ELSE {Doc(d) : d \in Docs})
         /\ X \in XPaths
 Next == UNCHANGED vars
 Spec == Init /\ [][Next]_vars
